@@ -172,7 +172,24 @@ func c06(args []string) int {
 		}
 		evecs = append(evecs, v)
 	}
+	for i := 0; i < run.N(15, 150); i++ { // all-power-of-two vectors: float deadlines are exact, many ties
+		n := 2 + r.Intn(7)
+		v := make([]uint32, n)
+		for j := range v {
+			v[j] = uint32(1 << r.Intn(8))
+		}
+		evecs = append(evecs, v)
+	}
 	npicks := run.N(300, 3000)
+	hsh := run.NewShard("From MV Require Import Model.EdfHeap.\nFrom Coq Require Import List ZArith.\nImport ListNotations.\nOpen Scope Z_scope.\n",
+		"heap_case", "heap_mismatches")
+	lay := func(l []int) string {
+		var xs []string
+		for _, x := range l {
+			xs = append(xs, fmt.Sprintf("%d%%nat", x))
+		}
+		return CoqList(xs)
+	}
 	for _, vec := range evecs {
 		ed := cluster.VerifNewEdf(len(vec))
 		pow2 := true
@@ -186,9 +203,14 @@ func c06(args []string) int {
 				alleq = false
 			}
 		}
+		lay0 := ed.Layout()
 		picks := make([]int, npicks)
+		var steps []string
 		for k := range picks {
 			picks[k] = ed.Next()
+			if k < 120 { // exact array layout after every pick (index-for-index tie to Model/EdfHeap.v); exact only when float deadlines are exact
+				steps = append(steps, fmt.Sprintf("(%d%%nat, %s)", picks[k], lay(ed.Layout())))
+			}
 		}
 		run.Count(fmt.Sprintf("edf|%v|%d", vec, npicks), !alleq, fmt.Sprintf("edf-hosts=%d", len(vec)))
 		// finder: the window inequality itself on the Go sequence, for every window and every pair
@@ -206,6 +228,11 @@ func c06(args []string) int {
 		rep := map[string]interface{}{"part": "edf", "weights": vec, "npicks": npicks, "first_picks": picks[:20]}
 		esh.Add(term, rep)
 		if pow2 {
+			var hws []string
+			for _, w := range vec {
+				hws = append(hws, CoqZ(int64(w)))
+			}
+			hsh.Add(fmt.Sprintf("(%s, %s, %s)", CoqList(hws), lay(lay0), CoqList(steps)), rep)
 			dsh.Add(term, rep)
 			run.Sum.Distribution["edf-pow2-exact"]++
 		}
@@ -215,6 +242,7 @@ func c06(args []string) int {
 	}
 	esh.Close()
 	dsh.Close()
+	hsh.Close()
 	return run.Finish()
 }
 
